@@ -420,6 +420,9 @@ def _layer1(case, stats):
             seen.add(d)
             return any(x == target or depends_on(x, target, seen) for x in ws_deps.get(d, ()))
         # (b) (c)
+        # step scripts only (<workspace dir>/script); fingerprint scripts are helper jobs: they count for
+        # the job limit, but the rules about steps, workspaces and failures do not apply to them
+        is_step = lambda e: e[3][0] == "bash" and isinstance(e[3][1], str) and "\n" not in e[3][1] and e[3][1].endswith("script")
         started, ended, running = {}, {}, set()
         failed_ws = None
         failed_all = []
@@ -432,7 +435,7 @@ def _layer1(case, stats):
                 holders.pop(e[1], None)
             elif e[0] == "builder-stopped" and stopped_at is None:
                 stopped_at = pos
-            if e[0] == "sub-start" and e[3][0] == "bash" and stopped_at is not None and not case["keep_going"] \
+            if e[0] == "sub-start" and is_step(e) and stopped_at is not None and not case["keep_going"] \
                     and not any(x[0] == "SIGINT" for x in ev):
                 # (d) a failure stops the build: only a task that already held its job slot when
                 # the builder stopped may still start the step it was preparing; a task that got
@@ -442,7 +445,7 @@ def _layer1(case, stats):
                     return {"kind": "step-started-after-build-stopped",
                             "detail": "%s started by a task that obtained its job slot after the build had been stopped by the "
                                       "failure of %s (no keep-going)" % (os.path.dirname(e[3][1]), failed_ws)}, log, True
-            if e[0] == "sub-start" and e[3][0] == "bash":
+            if e[0] == "sub-start" and is_step(e):
                 d = os.path.dirname(e[3][1])
                 if d in running:
                     return {"kind": "workspace-run-by-two-jobs", "detail": d}, log, True
@@ -465,7 +468,7 @@ def _layer1(case, stats):
                     if depends_on(d, f_):
                         return {"kind": "step-ran-after-failed-dependency",
                                 "detail": "%s started although %s, on which it (transitively) depends, had already failed" % (d, f_)}, log, True
-            elif e[0] == "sub-end" and e[3][0] == "bash":
+            elif e[0] == "sub-end" and is_step(e):
                 d = os.path.dirname(e[3][1])
                 running.discard(d)
                 ended[d] = e[4]
